@@ -547,11 +547,11 @@ class Evaluator(object):
                 return Bool(not pos)
             if isinstance(a, Ref) and isinstance(b, Ref):
                 return Bool((ka == kb) == pos)
-            if isinstance(a, Obj) and isinstance(b, Obj) and a.cls is not None and '__eq__' in a.cls.methods and not getattr(self, '_in_eq', False):
+            if isinstance(a, Obj) and isinstance(b, Obj) and a.cls is not None and a.cls.find('__eq__') is not None and not getattr(self, '_in_eq', False):
                 # the class says what equality is
                 self._in_eq = True
                 try:
-                    r_ = self.invoke(a.cls.methods['__eq__'], [a, b], {}, node)
+                    r_ = self.invoke(a.cls.find('__eq__'), [a, b], {}, node)
                 finally:
                     self._in_eq = False
                 if isinstance(r_, Bool):
@@ -563,7 +563,7 @@ class Evaluator(object):
                     return Bool(pos)
                 if a.origin.startswith('const:') and b.origin.startswith('const:'):
                     return Bool(not pos)
-            if isinstance(a, Obj) and isinstance(b, Obj) and a is not b and (a.cls is None or '__eq__' not in a.cls.methods):
+            if isinstance(a, Obj) and isinstance(b, Obj) and a is not b and (a.cls is None or a.cls.find('__eq__') is None):
                 # without an __eq__ two objects are equal only when they are the same object: one built by a constructor call here is
                 # not a module-level constant (nor another constructed object)
                 built_a, built_b = not a.origin, not b.origin
@@ -1091,8 +1091,8 @@ class Evaluator(object):
             return -v
         if isinstance(v, Mat):
             return Mat(_mat_map(v.data, lambda x: self.neg(x, node)), v.shape)
-        if isinstance(v, Obj) and v.cls is not None and '__neg__' in v.cls.methods:
-            return self.invoke(v.cls.methods['__neg__'], [v], {}, node)
+        if isinstance(v, Obj) and v.cls is not None and v.cls.find('__neg__') is not None:
+            return self.invoke(v.cls.find('__neg__'), [v], {}, node)
         if isinstance(v, CallV):
             return CallV(-v.rat, v.name)
         if isinstance(v, IteV):
@@ -1157,14 +1157,20 @@ class Evaluator(object):
             return self.unknown('operator %s' % type(op).__name__, node)
         if isinstance(a, Mat) or isinstance(b, Mat):
             return self.mat_binop(op, a, b, node)
+        if isinstance(a, Str) and isinstance(op, ast.Mod) and isinstance(b, (Rat, CallV)):
+            # '%.8g' % x / '%.3f' % x: a number rendered with a fixed count of significant digits / decimals (float() of it is a rounding)
+            import re as _re
+            m_ = _re.match(r'^%(\.\d+[fgeFGE])$', a.s)
+            if m_:
+                return alg.opaque('fmtnum', (b.rat if isinstance(b, CallV) else b, m_.group(1)))
         if isinstance(a, Str) and isinstance(b, Str) and isinstance(op, ast.Add):
             return Str(a.s + b.s)
         if isinstance(a, Tup) and isinstance(b, Tup) and isinstance(op, ast.Add):
             return Tup(a.items + b.items, a.is_list)
         if isinstance(a, Obj) and a.cls is not None:
             mname = {ast.Add: '__add__', ast.Sub: '__sub__', ast.Mult: '__mul__', ast.Div: '__truediv__', ast.Mod: '__mod__'}.get(type(op))
-            if mname and mname in a.cls.methods:
-                m = a.cls.methods[mname]
+            if mname and a.cls.find(mname) is not None:
+                m = a.cls.find(mname)
                 return self.invoke(m, [a, b], {}, node)
         if isinstance(a, (Str,)) or isinstance(b, (Str,)):
             return alg.opaque('strop', (argkey(a), argkey(b)))
@@ -1199,8 +1205,8 @@ class Evaluator(object):
         if isinstance(o, Obj):
             if attr in o.fields:
                 return o.fields[attr]
-            if o.cls is not None and attr in o.cls.methods:
-                return BoundMethod(o, o.cls.methods[attr])
+            if o.cls is not None and o.cls.find(attr) is not None:
+                return BoundMethod(o, o.cls.find(attr))
             self.diag('attr', node, 'object of class %s has no attribute %s' % (o.cls.name if o.cls else '?', attr))
             return self.unknown('missing attribute %s' % attr, node)
         if isinstance(o, IteV):
